@@ -86,7 +86,8 @@ HAZ = {
     'elseif_true_body_starts_with_if': (['dce0', 'dce1'], 'deadcode:taken-else-if-branch-starting-with-inline-if-kept-as-else-if'),
     'elseif_true_body_starts_with_block_if': (['dce0', 'dce1'], 'deadcode:taken-else-if-branch-starting-with-if-kept-as-else-if'),
     'elseif_false_else_starts_with_if': (['dce0', 'dce1'], 'deadcode:else-branch-starting-with-if-after-pruned-else-if-kept-as-else-if'),
-    'named_if_exit': (['dce0', 'dce1'], 'deadcode:exit-from-named-if-construct-left-behind'),
+    'elseif_false_no_else': (['dce0', 'dce1'], 'deadcode:last-else-if-pruned-without-else'),
+    'nested_fun_call': (['uargs', 'sched'], 'unused-args:nested-reference-to-same-function-not-updated'),
     'select_literal_range': (['dce0', 'dce1'], 'deadcode:select-case-literal-selector-range'),
     'select_logical': (['dce0', 'dce1'], 'deadcode:select-case-logical-selector'),
     'uvars_scalars_with_loops': (['uvars'], 'unused-vars:loop-variable-declaration-removed'),
@@ -133,6 +134,10 @@ def plan(idx, rng):
 
 
 # ---------------------------------------------------------------------------- transformation drivers
+class ParseFailure(Exception):
+    """the frontend could not read the generated program (not the business of this property)"""
+
+
 def _routines(sfs, members=True):
     out = []
     for sf in sfs:
@@ -148,8 +153,11 @@ def transform_direct(case, mode, opts):
     from loki import Sourcefile
     from loki.transformations.constant_propagation import do_constant_propagation
     from loki.transformations import remove_code as RC
-    h = Sourcefile.from_source(case.files[0][1])
-    c = Sourcefile.from_source(case.files[1][1], definitions=h.definitions)
+    try:
+        h = Sourcefile.from_source(case.files[0][1])
+        c = Sourcefile.from_source(case.files[1][1], definitions=h.definitions)
+    except Exception as e:  # pylint: disable=broad-except
+        raise ParseFailure(f'{type(e).__name__}: {str(e)[:200]}') from e
     sfs = [h, c]
     before = [(case.files[0][0], h.to_fortran()), (case.files[1][0], c.to_fortran())]
 
@@ -168,7 +176,7 @@ def transform_direct(case, mode, opts):
     def uargs():
         # as RemoveCodeTransformation does: call sites first, then the dummies (the map is keyed by routine)
         amap = {}
-        for r in _routines(sfs, members=False):
+        for r in _routines(sfs, members=True):
             if r.name.lower() == 'entry':
                 continue
             ua, _ = RC.find_unused_dummy_args_and_vars(r)
@@ -253,6 +261,9 @@ def evaluate(case, mode, opts, wd, counters):
     out = {'outcome': 'ok', 'symptom': None, 'detail': '', 'changed': False, 'after': None, 'exc': None, 'diff': None}
     try:
         before, after = transform(case, mode, opts, wd)
+    except ParseFailure as e:
+        out.update(outcome='inconclusive', detail=f'frontend failed on the generated program: {e}')
+        return out
     except Exception as e:  # pylint: disable=broad-except
         out.update(outcome='violation', symptom='exception', exc=e,
                    detail=f'{type(e).__name__}: {str(e)[:300]} @{tfdiff.innermost_loki_frame(e)}')
